@@ -65,7 +65,17 @@ func Check(t *testing.T, base int, prop func(*rapid.T)) {
 	t.Helper()
 	_ = flag.Set("rapid.checks", strconv.Itoa(N(base)))
 	_ = flag.Set("rapid.seed", strconv.FormatUint(Seed(t.Name()), 10))
-	rapid.Check(t, prop)
+	cases := 0
+	rapid.Check(t, func(rt *rapid.T) {
+		// A harness that leaks a descriptor per case would, in a long run, push descriptor numbers past 1023, where
+		// select(2)-based code (sonic's connect among it) stops working: that is the harness's fault, not a finding.
+		if cases++; cases%64 == 0 {
+			if ents, err := os.ReadDir("/proc/self/fd"); err == nil && len(ents) > 700 {
+				rt.Fatalf("INFRA: the harness process holds %d open descriptors after %d cases (descriptor leak in the harness)", len(ents), cases)
+			}
+		}
+		prop(rt)
+	})
 }
 
 // CheckSteps is Check with the average number of state-machine actions set.
